@@ -138,7 +138,7 @@ def _reaches(nodes, i, targets):
     return False
 
 
-def render(prog, order=None, group=None, mode="nested", depth=1, name=None):
+def render(prog, order=None, group=None, mode="nested", depth=1, name=None, capture=()):
     """Scenario text for the engine driver.
     order : statement order of the root graph (list of node ids); default 1..N
     group : (members, ext_in, out) from candidate_groups, wrapped into sub-graph g0 and wired `mode`
@@ -155,6 +155,8 @@ def render(prog, order=None, group=None, mode="nested", depth=1, name=None):
         lines.append("graph g0 nin=%d" % len(ext_in))
         for i in [x for x in order if x in members]:
             lines.append(_stmt(i, nodes[i - 1], lambda j: argref[j] if j in argref else str(j)))
+            if i in capture:
+                lines.append("n %d errof in=%d" % (1000 + i, i))
         lines.append("out %d" % outn)
         lines.append("endgraph")
         top = 0
@@ -191,6 +193,8 @@ def render(prog, order=None, group=None, mode="nested", depth=1, name=None):
             lines.append("n %d %s g=%d%s" % (gid, mode, top, (" in=" + ins) if ins else ""))
         else:
             lines.append(_stmt(x, nodes[x - 1], rootref))
+            if x in capture:
+                lines.append("n %d errof in=%d" % (1000 + x, x))
     for i in range(1, n + 1):
         if nodes[i - 1]["kind"] == "fb" and nodes[i - 1]["bind"]:
             lines.append("bind %d %s" % (i, rootref(nodes[i - 1]["bind"])))
@@ -257,7 +261,7 @@ def to_json_programs(progs):
     """strip presentation-only fields for TLC"""
     out = []
     for p in progs:
-        q = {"id": p["id"], "start": p["start"], "end": p["end"], "nodes": []}
+        q = {"id": p["id"], "start": p["start"], "end": p["end"], "nodes": [], "capt": [list(x) for x in p.get("capt", [])]}
         for n in p["nodes"]:
             q["nodes"].append({k: n[k] for k in ("kind", "k", "cnt", "ins", "script", "bind", "init", "cap")})
         out.append(q)
@@ -288,4 +292,4 @@ def predicted(pred):
     writes = {}
     for t, i, v in pred["writes"]:
         writes.setdefault(i, []).append((t, v))
-    return writes, list(pred["cycles"]), [(t, i) for t, i in pred["errs"]]
+    return writes, list(pred["cycles"]), [tuple(x) for x in pred["errs"]]
